@@ -65,7 +65,7 @@ RespMaps == {"none", "default_only", "ok_and_default", "three"}
 \* inline_params: a `Parameters:` block inside the swagger:route comment (+ name: ... in: ... type: ...)
 Blocks  == {"consumes", "produces", "schemes", "deprecated", "security", "summary", "inline_params"}
 InlineParam == [name |-> "ilimit", loc |-> "query", type |-> "integer", format |-> "int32", required |-> FALSE]
-ParamKinds == {"q_string", "q_int_bounds", "q_strings_items", "path_int", "header_str_len", "body_model", "form_bool", "q_required"}
+ParamKinds == {"q_string", "q_int_bounds", "q_strings_items", "q_ptr_items", "path_int", "header_str_len", "body_model", "form_bool", "q_required"}
 Spellings == {"long", "short"}          \* "Minimum: 1" vs "min: 1", "Required:" vs "required:"
 
 \* one operation of the program
@@ -84,6 +84,8 @@ ParamOf(k) ==
   CASE k = "q_string"        -> [name |-> "q", loc |-> "query", type |-> "string", required |-> FALSE]
     [] k = "q_int_bounds"    -> [name |-> "limit", loc |-> "query", type |-> "integer", format |-> "int32", required |-> FALSE, minimum |-> 1, maximum |-> 100]
     [] k = "q_strings_items" -> [name |-> "tags", loc |-> "query", type |-> "array", required |-> FALSE, itemsType |-> "string", itemsMinLength |-> 2, collectionFormat |-> "pipes", minItems |-> 1]
+    \* a slice of POINTERS with validations at items depth: the pointer is not a level of nesting
+    [] k = "q_ptr_items"     -> [name |-> "counts", loc |-> "query", type |-> "array", required |-> FALSE, itemsType |-> "integer", itemsMinimum |-> 3, itemsMaximum |-> 9]
     [] k = "path_int"        -> [name |-> "id", loc |-> "path", type |-> "integer", format |-> "int64", required |-> TRUE]
     [] k = "header_str_len"  -> [name |-> "X-Trace", loc |-> "header", type |-> "string", required |-> FALSE, minLength |-> 3, maxLength |-> 10]
     [] k = "body_model"      -> [name |-> "pet", loc |-> "body", required |-> TRUE, ref |-> "pet"]
